@@ -393,11 +393,13 @@ func (m *c07Mon) observe(where string, afterTx bool) {
 				sigOverride = "after a move-stake whose source and destination chain are the same (the entry's stake grows, nothing is delegated)"
 			}
 		}
-		if pd, ok := m.prevVaultDiff[md.Vault]; ok && afterTx && sigOverride == "" && !sumStake.Equal(vaultDel) && !pd.IsZero() && pd.Abs().Equal(sumStake.Sub(vaultDel).Abs()) {
-			sigOverride = "a stake change moved the vault's existing validator/provider imbalance (rounding residue or failed slash rebalancing) into its provider delegation"
+		if pd, ok := m.prevVaultDiff[md.Vault]; ok && afterTx && sigOverride == "" && !sumStake.Equal(vaultDel) && sumStake.Sub(vaultDel).Abs().LTE(pd.Abs().AddRaw(1)) {
+			// signature only: the mismatch is as small as the vault's validator/provider imbalance before the
+			// transaction plus one unit of share rounding
+			sigOverride = "a stake change credits the vault's provider delegation with the empty-provider delta (share rounding / earlier imbalance) instead of the staked amount"
 		}
 		if !sumStake.Equal(vaultDel) {
-			fail("c07-selfstake-vs-vault-delegation", "provider %s: entries' self stake sums to %s but its vault %s delegates %s to it; entries now: %s; at the previous observation: %s", s.NameOf(p), sumStake, s.NameOf(md.Vault), vaultDel, c07DescribeEntries(es), c07DescribeSnap(m.prev[p]))
+			fail("c07-selfstake-vs-vault-delegation", "provider %s: entries' self stake sums to %s but its vault %s delegates %s to it; entries now: %s; at the previous observation: %s; VerifyDelegatorBalance(vault) was %v at the previous observation and is %v now", s.NameOf(p), sumStake, s.NameOf(md.Vault), vaultDel, c07DescribeEntries(es), c07DescribeSnap(m.prev[p]), m.prevVaultDiff[md.Vault], vaultDiff[md.Vault])
 			sigOverride = ""
 			continue
 		}
